@@ -80,8 +80,8 @@ PROPS = {
     "C11": {
         "rules": [rules_sink.sink("mutation"), rules_sink.qual_rule("mutation"), rules_sink.term("mutation"), rules_sink.alloc("mutation"), rules_guard.make("R-INV"), rules_own.make("C11"), rules_follow.make("R-CTOR", "C11"), rules_struct.freelist, rules_entry.slotreset("C11"), rules_struct.chainpos("C11"), rules_lock.reacquire("C11"), rules_struct.nameinv("C11"), rules_struct.lenbound("C11"), rules_struct.nochild("C11"), rules_struct.stalelen("C11"), rules_struct.treetypes("C11"), rules_struct.detach("C11"), rules_units.units("C11"), rules_struct.parenttype("C11"), rules_struct.wholetable("C11"), rules_struct.handlekind("C11")],
         "explanation": "Same engine as C05 on the mutation surface (every public method, dev profile so that debug assertions and overflow checks count as panics): R-TERM, R-SINK, R-QUAL, R-ALLOC, R-INV, R-CTOR, R-OWN. "
-                       "Fields no validator covers (DirEntry.start_sector / stream_len, special FAT values) must reach index sites and raw walks only through the checked accessors or a dominating chain validation; the audit of the sink table found and led to repairs of five panics on damaged-but-accepted files, and records one more as a known finding (two handles on one stream).",
-        "not_decided": "as C05; behaviour of several handles on one stream (recorded as a known finding); resource exhaustion by caller-chosen sizes (set_len near u64::MAX)",
+                       "Fields no validator covers (DirEntry.start_sector / stream_len, special FAT values) must reach index sites and raw walks only through the checked accessors or a dominating chain validation; the audit of the sink table found and led to repairs of five panics on damaged-but-accepted files, (the two that had been recorded as known findings, D12 and D14, were repaired in rounds 13 and 14).",
+        "not_decided": "as C05; what several handles on one stream, or a handle whose stream was removed and whose slot was re-used, read and write (no panic any more, but no defined meaning either); resource exhaustion by caller-chosen sizes",
         "assumptions": ["audited sink entries (rules/sinks.json) record a human judgement made once by reading the code; the analysis re-checks only that their required guards still dominate the sink"],
     },
     "C12": {
@@ -308,6 +308,23 @@ _ADDED10 = {
     "C17": " Narrowing casts and overflow checks of the conversions are also tried with the signed interval evaluation (a conversion rewritten with 128-bit arithmetic is discharged by arithmetic; a truncating `(as_nanos() / 100) as u64` is still reported).",
 }
 for _pid, _txt in _ADDED10.items():
+    PROPS[_pid]["explanation"] = PROPS[_pid]["explanation"] + _txt
+
+
+_ADDED11 = {
+    "C06": " R-SINK: since the repair of D12 the handle takes the directory's length after a write-back; the window offset never exceeds the length (declared field relation, maintained by R-POSKEEP / R-SEEKBOUND).",
+    "C08": " R-BRANCHUNIT: in the stream layer no arithmetic on a branch that established `length >= MINI_STREAM_CUTOFF` measures with MINI_SECTOR_LEN, and none on the other branch with the sector length (a grown regular stream zero-filled only to the next 64 bytes shows old data in the rest of its sector). R-KEEPCOUNT also reports a cut guarded by a value derived from the list's length (`N < len - 1`).",
+    "C09": " R-DOTDOT: once names.pop() has found the chain empty, no Ok return of name_chain_from_path is reachable - a `..` that leaves the root is refused for absolute paths too.",
+    "C10": " R-DOTDOT (see C09): an escaping path that resolves inside the root makes a call that should be refused change the file.",
+    "C11": " R-STALELEN: in the parsing code no value derived from v.len() is used after v was shortened (the FAT padding bound taken before the DIFAT's trailing FREE entries are stripped). R-TREETYPES: Directory::validate reads the links of an entry only where its type was found to be Root, Storage or Stream (a linked Unallocated entry would be handed out again by allocate_dir_entry). Three audited sink entries were made specific (a bare `n - 1`, an assertion whose guard was dropped). The last recorded finding, D12, is repaired: no KNOWN-FINDING line is printed any more.",
+    "C12": " R-REFILLCAP: in StreamBuffer::refill_with no store to the filled length is passed on the way to the error exit of the fill callback (a failed refill must not leave bytes marked as read).",
+    "C13": " R-POSATOMIC also runs for this property (a set_len that updates the handle before the resize has succeeded leaves it out of step after a fault).",
+    "C15": " R-CUTOFF also runs for this property (a stream of exactly 4096 bytes classified as a mini stream on removal never releases its FAT chain).",
+    "C16": " R-HDRCOUNTUSE: outside the header's own reader and writer the header's four sector counts are only compared - they never enter arithmetic, a capacity or a loop bound (they are a documented tolerated deviation: a wrong count must not change what permissive open reads).",
+    "C17": " R-NARROW also reports wrapping / overflowing / unchecked arithmetic in the conversions.",
+    "C18": " R-NOERRAFTER also runs for this property and treats a fallible call whose Result is returned as the function's own result as an error exit (a Write::write that advances the position by the requested length and then returns the inner write's short count).",
+}
+for _pid, _txt in _ADDED11.items():
     PROPS[_pid]["explanation"] = PROPS[_pid]["explanation"] + _txt
 
 
